@@ -17,6 +17,7 @@ def Obj.prim (dq : Bool) : Obj → Bool
   | .inst _ _ => false
   | .coll ck xs => (dq || ck != .deque) && Obj.primL dq xs
   | .dict kvs => Obj.primKV dq kvs
+  | .mdict _ _ => false          -- an instance of a dict SUBCLASS is not a primitive
   | _ => true
 termination_by structural x => x
 def Obj.primL (dq : Bool) : List Obj → Bool
@@ -72,6 +73,9 @@ def wellTypedAny (w : World) : Obj → Bool
   | .coll _ xs => wellTypedAnyL w xs
   | .dict kvs => wellTypedAnyKV w kvs
   | .inst c fs => if w.isNT c then wellTypedT w (w.ntTys c) (vals fs) else wellTypedF w (w.fields c) fs
+  -- instances of dict subclasses (`OrderedDict`, `defaultdict`, `Counter`) are outside the C03 / C06 unstructure
+  -- theorems (a `BaseConverter` keeps the class); C01 covers their unstructuring by a `Converter`
+  | .mdict _ _ => false
   | _ => true
 termination_by x => (sizeOf x, 0)
 decreasing_by
@@ -140,7 +144,8 @@ def Ty.supU (gen : Bool) : Ty → Bool
   | .lit vs => vs.all Obj.isLitVal
   | .coll _ t => t.supU gen
   | .tupleHet ts => Ty.supUL gen ts && (gen || ts.all Ty.isPrimLeaf)
-  | .map _ kt vt => kt.supU gen && vt.supU gen
+  -- (mapping types whose target class is not `dict` -- `OrderedDict`, `defaultdict`, `Counter` -- are a `Converter`'s)
+  | .map k kt vt => kt.supU gen && vt.supU gen && (gen || k.target.isNone)
   | .opt t => t.supU gen
   | .wrap k t => t.supU gen && (gen || k == .final || k == .alias || (k == .newtype && t.isPrimLeaf))
   | .td _ => gen
